@@ -50,14 +50,16 @@ DOMAttrImpl::DOMAttrImpl(const DOMAttrImpl &other, bool /*deep*/)
     else
         fNode.isSpecified(false);
 
+    fParent.cloneChildren(&other);
+
+    // register the copy as an ID only now that it has its value: the ID map
+    // files an attribute under the value it has when it is added
     if (other.fNode.isIdAttr())
     {
         fNode.isIdAttr(true);
         DOMDocumentImpl *doc = (DOMDocumentImpl *)fParent.fOwnerDocument;
         doc->getNodeIDMap()->add(this);
     }
-
-    fParent.cloneChildren(&other);
 }
 
 
